@@ -133,10 +133,41 @@ func c17Cases(level int) []SCase {
 			cases = append(cases, sc)
 		}
 	}
+	// a property whose Go name is the one the synthetic catch-all field would get, with and without a default, with and without
+	// typed additional properties: whatever the two emitters make of it, they must make the same
+	for _, n := range []string{"additionalProperties", "AdditionalProperties", "additional-properties"} {
+		for _, dflt := range []bool{false, true} {
+			for _, typedAddl := range []bool{false, true} {
+				ap := J{"type": "string"}
+				if dflt {
+					ap["default"] = "d"
+				}
+				sch := J{"type": "object", "properties": J{"name": J{"type": "string", "minLength": 2}, n: ap, "count": J{"type": "integer", "minimum": 1}}, "required": A{"name"}}
+				if typedAddl {
+					sch["additionalProperties"] = J{"type": "string"}
+				}
+				cases = append(cases, SCase{ID: fmt.Sprintf("C17/catch-all-name/%s/default=%v/typed-additional=%v", n, dflt, typedAddl), Schema: sch, Cfg: baseCfg(),
+					Axes: map[string]string{"pos": "catch-all-name", "leaf": n}})
+			}
+		}
+	}
 	out := cases[:0:0]
 	for _, c := range cases {
 		c.Cfg.ExtraImports = true
 		c.ID = strings.Replace(c.ID, "/", "+yaml/", 1)
+		out = append(out, c)
+	}
+	// the same string family with a tag list that does not name yaml (--tags json): the YAML methods are still part of --extra-imports
+	for i, c := range c06Cases(0) {
+		if i%3 != 0 && level == 0 {
+			continue
+		}
+		if pos := c.Axes["pos"]; pos != "props" && pos != "def" && pos != "root" && pos != "default" {
+			continue // without yaml tags yaml.v3 binds a key to the lower-cased Go field name: only single lower-case words as property names
+		}
+		c.Cfg.ExtraImports = true
+		c.Cfg.Tags = []string{"json"}
+		c.ID = strings.Replace(c.ID, "/", "+yaml+tags-json/", 1)
 		out = append(out, c)
 	}
 	return out
@@ -270,7 +301,7 @@ func c17(ctx *Ctx) {
 		if jv == "reject" {
 			ov = refmodel.Reject
 		}
-		if ov != pr.tv {
+		if ov != pr.tv && pr.sc.Axes["pos"] != "catch-all-name" { // (a property named like the catch-all field: KF-C14-2, only the parity of the two paths is judged here)
 			if devs, ok := attribute(pr.m, pr.doc.V, ov, listedAll); ok {
 				for _, dv := range devs {
 					ctx.Run.Known(dv, fmt.Sprintf("%s doc=%s model=%s json=%s", pr.sc.ID, pr.doc.Text, pr.tv, jv), replay)
